@@ -47,6 +47,7 @@ func load() *replayFile {
 
 // SetValues installs replay values programmatically (used by the replay driver for batches).
 func SetValues(harness, tier string, values map[string]interface{}) {
+	drawMode = 0
 	rf = &replayFile{Harness: harness, Tier: tier, Values: values}
 	failed = nil
 	reached = map[string]bool{}
@@ -184,9 +185,27 @@ func Symbolic() bool { return false }
 
 // Generators is the nondeterministic SeededValueGenerator: the k-th draw of any generator
 // created with seed s is the replay value "draw[s][k]" (0 when the model does not mention it).
+var drawMode int
+
+// SetDrawMode(0) makes every seeded draw a free value in [0,1) (the default); k >= 1 selects a
+// fixed deterministic draw pattern instead (used where products of draws would make the
+// arithmetic intractable and only the structure of the computation matters).
+func SetDrawMode(k int) { drawMode = k }
+
+func concreteDraw(mode int, seed int64, k int) float64 {
+	if mode == 1 {
+		return float64((seed*7+int64(k)*13)%8) / 8
+	}
+	return float64((seed*3+int64(k)*5+4)%8) / 8
+}
+
 func Generators(seed int64) func() float64 {
 	k := 0
 	return func() float64 {
+		if drawMode > 0 {
+			k++
+			return concreteDraw(drawMode, seed, k-1)
+		}
 		name := fmt.Sprintf("draw[%d][%d]", seed, k)
 		k++
 		f := floatOf(name, 0)
